@@ -196,11 +196,11 @@ class PortMachine(Machine):
                 line = self._gen_line(w, slot["plat"], slot["version"], slot["proto"])
             return dict(op="port_set_line", t=t, line=line)
         if r < 0.40:
-            return dict(op="port_wb_items", t=t, perm=s.choice(["same", "tuple"]))
+            return dict(op="port_wb_items", t=t, perm=s.choice(["same", "same", "tuple", "copy"]))
         if r < 0.62:
             if slot["op"] == "neq" and not cfg["neq_wb"]:
                 return dict(op="port_wb_sport_decode", t=t)
-            return dict(op="port_wb_ports", t=t, as_=s.choice(["list", "tuple"]))
+            return dict(op="port_wb_ports", t=t, as_=s.choice(["list", "list", "tuple", "copy"]))
         if r < 0.78:
             if slot["op"] == "neq" and not cfg["neq_wb"]:
                 return dict(op="port_wb_sport_decode", t=t)
@@ -293,11 +293,30 @@ class PortMachine(Machine):
                     version=slot["version"], port_nr=slot["nr"])
 
     def _abort(self, slot, pre, opname):
-        """Rule 4.4: after a library-raised error keep the object if atomic, else retire it."""
-        if self._observe(slot["obj"]) == pre:
+        """After a library-raised error the write may or may not have taken effect, but the
+        object must stay a port expression: whatever text it reports, its port list, range
+        string and operator must be those of that text (the denotation clause of C08 holds for
+        the object as it is, not only for objects that were never refused a write)."""
+        p = slot["obj"]
+        if self._observe(p) == pre:
             self.probes["abort_atomic"] += 1
             return
         self.probes[f"torn_after_abort[{opname}]"] += 1
+        now = None
+        try:
+            now = self._parse_gen_line(p.line, p.protocol or slot["proto"], p.platform,
+                                       slot["version"])
+        except Exception:  # noqa
+            now = None
+        if now is not None and p.platform in ("ios", "nxos", "asa"):
+            probe = dict(slot, op=now[0], operands=now[1], plat=p.platform,
+                         proto=p.protocol or slot["proto"], nr=p.port_nr)
+            try:
+                self._check(p, probe, f"after rejected {opname}")
+            except Violation as v:
+                raise Violation("C08", "C08.rejected-write-inconsistent",
+                                f"after a rejected {opname} the object reports {p.line!r} but "
+                                f"its views disagree: {v.msg}", {"opname": opname})
         slot["obj"] = self._build(slot)
 
     # ------------------------------------------------------------- apply
@@ -420,13 +439,11 @@ class PortMachine(Machine):
         perm = op["perm"]
 
         def fn(p):
-            items = list(p.items)
-            if perm == "rev":
-                items.reverse()
-            elif perm == "tuple":
+            items = p.items  # the very object the view hands out: "its own items"
+            if perm == "tuple":
                 items = tuple(items)
-            elif perm == "set" and len(set(items)) == len(items):
-                items = set(items)
+            elif perm == "copy":
+                items = list(items)
             p.items = items
 
         return self._writeback(slot, "items", fn)
@@ -440,13 +457,11 @@ class PortMachine(Machine):
         as_ = op["as_"]
 
         def fn(p):
-            ports = list(p.ports)
+            ports = p.ports  # the very object the view hands out
             if as_ == "tuple":
                 ports = tuple(ports)
-            elif as_ == "set":
-                ports = set(ports)
-            elif as_ == "rev":
-                ports.reverse()
+            elif as_ == "copy":
+                ports = list(ports)
             p.ports = ports
 
         return self._writeback(slot, f"ports:{as_}", fn)
